@@ -9,6 +9,7 @@ import (
 	"verif/gen"
 	"verif/hx"
 	"verif/rc"
+	"verif/ref"
 )
 
 type asmCase struct {
@@ -166,4 +167,60 @@ func TestC03(t *testing.T) {
 		ID: "C03", Sub: "meaning", Rule: c03Rule, Checks: hx.Scale(9000, 2400000),
 		Gen: genAsmCase, Judge: judgeAsmCase,
 	})
+}
+
+// TestC03_OneLine sweeps every one-instruction program (17 opcodes, modifier
+// omitted or one of 7, A mode omitted or one of 8, lone operand or B mode
+// omitted or one of 8) under both dialects against the meaning function: the
+// default tables are small and finite, so they are enumerated, not sampled.
+// Under ICWS'88 only what the '88 table allows has a meaning; the rest must be
+// refused (C06 decides that) and is skipped here. A failure is stored as an
+// ordinary `meaning` case and replayed by TestC03.
+func TestC03_OneLine(t *testing.T) {
+	if hx.ReplayPath() != "" {
+		t.Skip("failures are stored as cases of the sampled sub-check")
+	}
+	if hx.Shard() != 0 {
+		t.Skip("the sweep is the same on every shard")
+	}
+	rec := hx.NewRec("C03", "oneline", "sweep of all one-instruction programs: 17 opcodes x (no modifier | 7 modifiers) x (A mode omitted | 8 modes) x (one operand | B mode omitted | 8 modes) under ICWS'94, NOP94 and (where the '88 table gives them a meaning) ICWS'88, core 8000: CompileWarrior must return the meaning computed without gmars (default modifier and modes, placement of a lone operand). Non-trivial: every case; distinct by case hash.")
+	complete := false
+	t.Cleanup(func() { rec.Flush(complete) })
+	modes := append([]string{""}, ref.ModeChars[:]...)
+	mods := append([]string{""}, ref.ModNames[:]...)
+	for _, cfg := range []gen.AsmConfig{
+		{CoreSize: 8000, Length: 100, Distance: 100, Processes: 8000},
+		{NOP94: true, CoreSize: 8000, Length: 100, Distance: 100, Processes: 8000},
+		{Legacy: true, CoreSize: 8000, Length: 100, Distance: 100, Processes: 8000},
+	} {
+		for _, op := range ref.OpNames {
+			for _, mod := range mods {
+				if cfg.Legacy && mod != "" {
+					continue
+				}
+				for _, am := range modes {
+					for bi := -1; bi < len(modes); bi++ {
+						it := rc.Item{Kind: rc.KInstr, Op: op, Mod: mod, AMode: am, A: rc.Toks(rc.N(3))}
+						if bi >= 0 {
+							it.BMode = modes[bi]
+							it.B = rc.Toks(rc.N(5))
+						}
+						c := asmCase{Cfg: cfg, Prog: rc.Program{Items: []rc.Item{it}}, Styles: []rc.Style{{}}}
+						if _, err := rc.MeaningOf(c.Prog, cfg.RC()); err != nil {
+							continue // not an '88 instruction
+						}
+						var msg string
+						if pm := hx.Safely(func() { msg = judgeAsmCase(c, rec) }); pm != "" {
+							msg = pm
+						}
+						if msg != "" {
+							hx.WriteFailure("C03", "meaning", msg, c)
+							t.Fatalf("%s", msg)
+						}
+					}
+				}
+			}
+		}
+	}
+	complete = true
 }
